@@ -342,7 +342,7 @@ def run(res, a):
     # ... and what the constructor left stored lies within the range it declared (<type>=<value>/<min>/<max>)
     for t in o.split(" "):
         f = t.split(":")
-        for e in (f[5].split(",") if len(f) > 5 else []):
+        for e in (f[4].split(",") if len(f) > 5 else []):
             if "=" not in e or "!" in e:
                 continue
             try:
